@@ -218,7 +218,7 @@ def make_handler(f, ctx, symmetric=True):
             return LAP(symmetric)
         if short == "evaluate_density" and f.name != "evaluate_density":
             fwd(e, short, 0, ["one_density_matrix", "basis", "points"], {"transform": "transform"})
-            return G(ZERO, ZERO, symmetric)
+            return G(ZERO, ZERO, symmetric).marked("evaluate_density clips negative values to 0 and raises beyond its threshold")
         if short == "evaluate_deriv_density" and f.name != "evaluate_deriv_density":
             L = interp.expr(e.args[0])
             want_kw = {"transform": "transform"}
@@ -234,7 +234,7 @@ def make_handler(f, ctx, symmetric=True):
             t = Terms(symmetric=symmetric)
             for ek in E3:
                 t = t + G(ek, ek, symmetric) * sp.Rational(1, 2)
-            return t
+            return t.marked("evaluate_posdef_kinetic_energy_density clips negative values to 0 and raises beyond its threshold")
         # ---- numpy plumbing on orbital-level values
         if short == "dot" and isinstance(e.func, ast.Attribute) and ast.unparse(e.func.value) == "one_density_matrix":
             x = interp.expr(e.args[0])
@@ -780,7 +780,8 @@ def run(repo, R):
         for ek in E3:
             want = want + G(ek, ek) * sp.Rational(1, 2)
         want = want + LAP() * ALPHA
-        R.check(isinstance(ret, Terms) and ret.equals(want), "TERM", f.site, "posdef + alpha * laplacian",
+        # the positive-definite part is, by definition, the clipped routine's value: that one non-linear step is part of the definition
+        R.check(isinstance(ret, Terms) and ret.equals(want, allow=("evaluate_posdef_kinetic_energy_density clips",)), "TERM", f.site, "posdef + alpha * laplacian",
                 f"the general kinetic energy density is not t_+ + alpha * laplacian: {ret.diff_str(want) if isinstance(ret, Terms) else ret}",
                 where=f.where(), expected=str(want), found=str(ret))
         for g, st, bad in guard_root_findings(it.guards):
